@@ -30,7 +30,9 @@ func init() {
 }
 
 var c10StartDirs = []string{"/", "/home/u", "/a/../b/", "rel/dir", "", "/x//y/./z/"}
-var c10PathPool = []string{"f0", "/f0", "", ".", "..", "../..", "a/../../b", "//f0", "f0/", "d/./a", "d//a/", "/d/../d/a", "\xff\xfe", "./", "/", "x/" + "y/.././z", "a b", strings.Repeat("p/", 40) + "q", "nx", "/../f0", "d/a/../../f1"}
+var c10PathPool = []string{"f0", "/f0", "", ".", "..", "../..", "a/../../b", "//f0", "f0/", "d/./a", "d//a/", "/d/../d/a", "\xff\xfe", "./", "/", "x/" + "y/.././z", "a b", strings.Repeat("p/", 40) + "q", "nx", "/../f0", "d/a/../../f1",
+	// a backslash is an ordinary character of a name here, not a separator
+	"/pub\\..\\..\\etc", "a\\b", "d/..\\x"}
 
 func c10HandlerOpts(rng *rand.Rand) int64 {
 	return int64([]int{0, 1, 2, 4, 1 | 2 | 4, 8, 16, 32, 64, 128, 1 | 2 | 4 | 128, 1 | 8, 2 | 16}[rng.IntN(13)])
@@ -50,7 +52,7 @@ func c10Gen(class string, seed uint64, tier string) *vfScenario {
 		n := 1 + rng.IntN(4)
 		for i := 0; i < n; i++ {
 			k := []string{"stat", "lstat", "open", "readat", "writeat", "mkdir", "readdir", "readlink", "statvfs", "posixrename", "rename", "remove", "truncate", "symlink", "link", "realpath"}[rng.IntN(16)]
-			sc.Ops = append(sc.Ops, vfOp{K: k, A: int64(rng.IntN(len(c10Errors))), B: int64(rng.IntN(2))})
+			sc.Ops = append(sc.Ops, vfOp{K: k, A: int64(rng.IntN(len(c10Errors))), B: int64(rng.IntN(4))})
 		}
 		return sc
 	}
@@ -140,7 +142,7 @@ func c10Enumerate(tier string, base uint64, emit func(*vfScenario)) {
 	// the whole error matrix through every client operation
 	for ei := range c10Errors {
 		for _, k := range []string{"stat", "lstat", "open", "readat", "writeat", "mkdir", "readdir", "readlink", "statvfs", "posixrename", "rename", "remove", "truncate", "symlink", "link", "realpath"} {
-			for which := 0; which < 2; which++ {
+			for which := 0; which < 4; which++ {
 				n++
 				emit(&vfScenario{Prop: "C10", Class: "outbound", Seed: vfMix(vfMix(base, 0xc10), uint64(n)), Cfg: map[string]int64{"kind": 1, "hopt": 1 | 2 | 4 | 128, "sites": 3},
 					Ops: []vfOp{{K: k, A: int64(ei), B: int64(which)}}})
@@ -602,7 +604,7 @@ func c10Outbound(r *vfRun) {
 			switch op.K {
 			case "readat":
 				s.op, s.handler = vfOp{K: "readat", H: slot, Off: 3, N: 5}, "ReadAt"
-				s.partial = op.B == 1
+				s.partial = op.B&2 != 0
 			case "writeat":
 				s.op, s.handler = vfOp{K: "writeat", H: slot, Off: 3, N: 5}, "WriteAt"
 			default:
@@ -613,7 +615,8 @@ func c10Outbound(r *vfRun) {
 			s.op, s.handler = vfOp{K: "mkdir", P: "/newd"}, "Filecmd"
 		case "readdir":
 			s.op, s.handler = vfOp{K: "readdir", P: "/d"}, "ListAt"
-			if op.B == 1 {
+			s.partial = op.B&2 != 0
+			if op.B&1 == 1 {
 				s.handler = "Filelist"
 			}
 		case "readlink":
@@ -647,9 +650,10 @@ func c10Outbound(r *vfRun) {
 		default:
 			continue
 		}
-		if s.handler == "Filelist" && op.B == 1 && (op.K == "stat" || op.K == "lstat" || op.K == "readlink") {
-			// Filelist succeeds; the lister it returned fails in ListAt without an entry
+		if s.handler == "Filelist" && op.B&1 == 1 && (op.K == "stat" || op.K == "lstat" || op.K == "readlink") {
+			// Filelist succeeds; the lister it returned fails in ListAt, without an entry or (partial) together with one
 			s.handler = "ListAt"
+			s.partial = op.B&2 != 0
 		}
 		steps = append(steps, s)
 	}
@@ -716,8 +720,14 @@ func c10Outbound(r *vfRun) {
 			ok = got == "nil" || got == "eof"
 		}
 		if want == "eof" && s.handler == "ListAt" && s.op.K != "readdir" {
-			// a lister for a single name that reports the end without an entry: "no such file" is as good a rendering
-			ok = got == "eof" || got == "notexist"
+			// a lister for a single name that reports the plain end-of-list signal without an entry: "no such file" is as
+			// good a rendering; together with the entry it is the normal end of a complete answer. An end-of-file *error*
+			// (wrapped by package os) is an error of the handler and reaches the client as such.
+			if s.e.err == io.EOF || s.e.err == ErrSSHFxEOF {
+				ok = got == "eof" || got == "notexist" || (s.partial && got == "nil")
+			} else {
+				ok = got == "eof"
+			}
 		}
 		if want == "nil" {
 			ok = true
